@@ -62,7 +62,7 @@ P["C17"] = dict(
          "every cursor store classified as inside the viewport (constant 1, clamped argument, guarded increment, wrap test), every cursor/viewport "
          "change followed by a recomputation of the derived buffer offset, and the offset formula itself (polynomial normal form). Equality with a "
          "reference terminal over all byte streams, scrolling contents and buffer memory safety are not decided. "
-         "Added: (R4) the buffer-scrolling arm of lf moves exactly the viewport's lines up by one stride and blanks exactly viewportWidth cells.",
+         "Added: (R4) the buffer-scrolling arm of lf moves exactly the viewport's lines up by one stride and blanks exactly viewportWidth cells. Also (R1): the TAB loop runs tabWidth times with no exit other than its counting test, and carriage return stores 1 into cursorX (in the helper or in place).",
     technique="case-set exhaustiveness + SSA dominance facts per phi edge + must-pass-through + polynomial normal form",
     ref="DESIGN.md section 3, C17",
 )
@@ -142,7 +142,7 @@ P["C11"] = dict(
          "entries start with a NameString, deferred ones with PkgLen, Method's flags are attached argument #1). Computed by constant folding of the "
          "program's own lookup functions through go/ssa control flow. Scoping, relocation, forward references and multi-table loads - the "
          "behavioural core of C11 - are NOT decided; the size of this claim is small and stated as such. "
-         "Added: (R4) every Parser field written while parsing is re-initialised at the start of each table; (R5) every site that reads a method's argument count uses flags & 7.",
+         "Added: (R4) every Parser field written while parsing is re-initialised at the start of each table; (R5) every site that reads a method's argument count uses flags & 7. (R6) the bit offset stored for a field unit is a variable of the element loop that starts at 0 and only grows by parsed package lengths.",
     technique="exhaustiveness / table agreement by constant folding of SSA over finite domains",
     ref="DESIGN.md section 3, C11",
 )
@@ -162,7 +162,7 @@ P["C13"] = dict(
          "enumerated idioms (mutual link, splice-in, guarded bypass, reset, free-list push/pop) with its partner on every path; parent first/last "
          "indices and the node's parent index are maintained; free-list reuse before growth, refusal to free objects with children, freed slots "
          "unreachable through ObjectAt. Lookup semantics of Find and the induction over histories are not decided. "
-         "Added: (R4) dispatch structure of ObjectTree.Find (absolute, caret and multi-segment names use the downward-only lookup; single segments walk the parent chain comparing all name bytes).",
+         "Added: (R4) dispatch structure of ObjectTree.Find (absolute, caret and multi-segment names use the downward-only lookup; single segments walk the parent chain comparing all name bytes). (R5) every element access and re-slicing of the path expression (and of an object's name) in Find and findRelative is proved in range by linear reasoning over the dominating tests; link-store forwarding is by value identity (a link re-read after it was overwritten is another value).",
     technique="writers-of ownership + idiom-table pairing on all CFG paths + SSA dominance",
     ref="DESIGN.md section 3, C13",
 )
@@ -184,7 +184,7 @@ P["C19"] = dict(
          "reachable only from their guarded entry point, the caller-supplied Fill rectangle never enters arithmetic before being bounded (found and "
          "fixed F5), all colour-depth switches partition identically and write no more bytes per pixel than bytesPerPixel, rows are addressed only "
          "through fbOffset (logo area). Pixel-exact rendering, padding bytes and the glyph walk's memory safety are not decided. "
-         "Added: (R6) VesaFbConsole.Scroll moves by lines*GlyphHeight*pitch bytes and the fill painters receive the clipped cell rectangle scaled by the glyph size.",
+         "Added: (R6) VesaFbConsole.Scroll moves by lines*GlyphHeight*pitch bytes and the fill painters receive the clipped cell rectangle scaled by the glyph size. Also (R6): each fill painter paints pH rows from fbOffset(pX, pY) in steps of the pitch, each row pW pixels of the pixel size, pW and pH being the values it was given, with no early exit.",
     technique="SSA dominance + who-may-call + unbounded-argument wrap rule + switch partition agreement + polynomial forms",
     ref="DESIGN.md section 3, C19",
 )
@@ -193,7 +193,7 @@ P["C20"] = dict(
     text="Reproducibility and selection structure of the redirect scan: no append to the table or the file list under a map range (found and fixed "
          "F6), no goroutines, the scanned file set and the entry guards (FuncDecl, Doc, directive prefix) dominate the append, one entry per "
          "annotation line in source order, the recorded symbols' data flow, and order preservation through CompleteRedirects / NUM_REDIRECTS / main. "
-         "That the tool finds every annotation of every tree (go/parser behaviour) is not decided.",
+         "That the tool finds every annotation of every tree (go/parser behaviour) is not decided. Added: (R3) a new SymbolRedirect is allocated per annotation inside the comment loop and that record is what is appended; the image writes are recognised as binary.Write or PutUint64 + Write, little-endian.",
     technique="order-sensitivity rule (map range feeding an ordered sink) + SSA dominance + value-flow matching",
     ref="DESIGN.md section 3, C20",
 )
@@ -213,7 +213,7 @@ P["C10"] = dict(
     text="Decoding structure of the multiboot reader: exact complement property of the type normalisation decided for all 2^32 values through "
          "interval representatives (found and fixed F3), strides taken from the block's own headers, first-match / end-tag exits of the tag scan, "
          "payload dereferenced only when present, provenance of every integer that becomes a pointer, non-empty ELF sections and RGB-only colour info. "
-         "Exact decoding of all blocks, reads past the block's end and command-line splitting are not decided.",
+         "Exact decoding of all blocks, reads past the block's end and command-line splitting are not decided. Added: every iteration of the entry loop reaches the visitor (no entry is skipped) and ELF section headers are read only inside the loop bounded by numSections (nothing behind an empty table is touched); the strides are decided on the loop's induction form (cursor or offset, symbolic entry size).",
     technique="comparison-set evaluation over interval representatives + SSA dominance + pointer provenance (taint) analysis",
     ref="DESIGN.md section 3, C10",
 )
